@@ -56,6 +56,55 @@ BAD = [
     ("vecvec", "Vec<Vec<u16>>", "vec![vec![1u16]]", False),
 ]
 
+HAND = """
+pub static FAKE_DATA: [u8; 3] = [1, 2, 3];
+#[derive(Clone, Copy, Debug)]
+pub struct Fake { pub s: &'static [u8] }
+impl CopyType for Fake { type Copy = Zero; }
+impl MaxSizeOf for Fake { fn max_size_of() -> usize { 8 } }
+impl TypeHash for Fake { fn type_hash(h: &mut impl core::hash::Hasher) { use core::hash::Hash; "Fake".hash(h); } }
+impl AlignHash for Fake { fn align_hash(_h: &mut impl core::hash::Hasher, _o: &mut usize) {} }
+impl epserde::ser::SerializeInner for Fake {
+    type SerType = Self;
+    const IS_ZERO_COPY: bool = false; // what the derive computes: not all fields are zero-copy
+    const ZERO_COPY_MISMATCH: bool = false;
+    fn _serialize_inner(&self, backend: &mut impl epserde::ser::WriteWithNames) -> epserde::ser::Result<()> { epserde::ser::helpers::serialize_zero(backend, self) }
+}
+impl epserde::deser::DeserializeInner for Fake {
+    type DeserType<'a> = &'a Fake;
+    fn _deserialize_full_inner(backend: &mut impl epserde::deser::ReadWithPos) -> epserde::deser::Result<Self> { epserde::deser::helpers::deserialize_full_zero::<Self>(backend) }
+    fn _deserialize_eps_inner<'a>(backend: &mut epserde::deser::SliceWithPos<'a>) -> epserde::deser::Result<&'a Fake> { epserde::deser::helpers::deserialize_eps_zero::<Self>(backend) }
+}
+#[derive(Epserde, Clone, Copy, Debug)]
+#[repr(C)]
+#[zero_copy]
+pub struct HoldsFake { pub n: u32, pub f: Fake }
+#[derive(Epserde, Clone, Debug)]
+pub struct DeepHoldsFake { pub n: u32, pub f: Fake, pub v: Vec<Fake> }
+#[derive(Epserde, Clone, Debug)]
+pub struct Gen<A> { pub a: A }
+"""
+F = "Fake { s: &FAKE_DATA }"
+HAND_CONTEXTS = [
+    ("alone", "Fake", F),
+    ("vec", "Vec<Fake>", f"vec![{F}, {F}]"),
+    ("boxslice", "Box<[Fake]>", f"vec![{F}].into_boxed_slice()"),
+    ("array", "[Fake; 2]", f"[{F}, {F}]"),
+    ("array1", "[Fake; 1]", f"[{F}]"),
+    ("vec-of-array", "Vec<[Fake; 2]>", f"vec![[{F}, {F}]]"),
+    ("option-vec", "Option<Vec<Fake>>", f"Some(vec![{F}])"),
+    ("zero-struct-field", "HoldsFake", f"HoldsFake {{ n: 1, f: {F} }}"),
+    ("vec-of-zero-struct", "Vec<HoldsFake>", f"vec![HoldsFake {{ n: 1, f: {F} }}]"),
+    ("deep-struct-field", "DeepHoldsFake", f"DeepHoldsFake {{ n: 1, f: {F}, v: vec![{F}] }}"),
+    ("generic-field", "Gen<Fake>", f"Gen {{ a: {F} }}"),
+    ("generic-vec", "Gen<Vec<Fake>>", f"Gen {{ a: vec![{F}] }}"),
+    ("slice", "&[Fake]", f"&[{F}, {F}][..]"),
+    ("tuple1", "(Fake,)", f"({F},)"),
+    ("tuple2", "(Fake, Fake)", f"({F}, {F})"),
+    ("vec-of-tuple", "Vec<(Fake, Fake)>", f"vec![({F}, {F})]"),
+    ("rangeto", "Vec<core::ops::RangeTo<Fake>>", f"vec![..{F}]"),
+]
+
 MAIN = """
 fn main() {
     let v = %(ctor)s;
@@ -67,6 +116,24 @@ fn main() {
         Err(_) => println!("PANIC sink={} header={}", sink.len(), header),
         Ok(Ok(n)) => println!("OK n={} sink={} header={}", n, sink.len(), header),
         Ok(Err(e)) => println!("ERR {} sink={} header={}", e, sink.len(), header),
+    }
+}
+"""
+
+
+MAIN_HAND = """
+fn main() {
+    let v = %(ctor)s;
+    let mut sink: Vec<u8> = Vec::new();
+    std::panic::set_hook(Box::new(|_| {}));
+    let r = std::panic::catch_unwind(std::panic::AssertUnwindSafe(|| v.serialize(&mut sink).map_err(|e| format!("{:?}", e))));
+    let needle = (FAKE_DATA.as_ptr() as usize).to_ne_bytes();
+    let leaked = sink.windows(8).any(|w| w == needle);
+    let header = 37 + core::any::type_name::<%(ty)s>().len();
+    match r {
+        Err(_) => println!("PANIC sink={} header={} pointer_in_sink={}", sink.len(), header, leaked),
+        Ok(Ok(n)) => println!("OK n={} sink={} header={} pointer_in_sink={}", n, sink.len(), header, leaked),
+        Ok(Err(e)) => println!("ERR {} sink={} header={} pointer_in_sink={}", e, sink.len(), header, leaked),
     }
 }
 """
@@ -143,6 +210,21 @@ def family(tier):
     for label, ty, val, is_copy in BAD:
         if is_copy:
             out.append((f"bad.GZ.arg.{label}", PRELUDE + gen + MAIN % {"ctor": f"GZ {{ a: {val}, n: 1 }}", "ty": f"GZ<{ty}>"}, "bad"))
+    # the same wrong type inside a PhantomData and as a field, in both orders
+    for label, ty, val, is_copy in BAD:
+        if not is_copy:
+            continue
+        for order in ("ph-first", "field-first"):
+            fields = [("m", f"PhantomData<{ty}>", "PhantomData"), ("x", ty, val)]
+            if order == "field-first":
+                fields.reverse()
+            item, ctor = struct_item("PX", ZC, "Epserde, Clone, Copy, Debug", fields, "named")
+            out.append((f"bad.PX.{order}.{label}", PRELUDE + item + MAIN % {"ctor": ctor, "ty": "PX"}, "bad"))
+    # second layer: a type whose impls are what the derive would generate for a wrongly declared
+    # zero-copy struct if the compile-time layer were absent (declared Zero, IS_ZERO_COPY = false),
+    # used alone and inside every zero-copy container
+    for label, ty, ctor in HAND_CONTEXTS:
+        out.append((f"bad.hand.{label}", PRELUDE + HAND + MAIN_HAND % {"ctor": ctor, "ty": ty}, "bad"))
     # sequences of a fake zero-copy type
     fake = "#[derive(Epserde, Clone, Copy, Debug)]\n#[repr(C)]\n#[zero_copy]\npub struct F { pub s: &'static [u8] }\n"
     out.append(("bad.vec-of-fake", PRELUDE + fake + MAIN % {"ctor": "vec![F { s: &[1u8, 2] }]", "ty": "Vec<F>"}, "bad"))
@@ -187,6 +269,10 @@ def main():
                 kv = dict(x.split("=") for x in out.split()[1:])
                 if int(kv["sink"]) <= int(kv["header"]):
                     o = "compiled-but-panics-before-any-value-byte"
+                elif kv.get("pointer_in_sink") == "false":
+                    # bytes of the enclosing deep-copy structure (tags, lengths, other fields) may
+                    # precede; no byte of the wrongly declared data has been written
+                    o = "compiled-but-panics-before-any-byte-of-the-wrong-data"
                 else:
                     o = "panics-after-writing-value-bytes"
                     violations.append((f"C17|{pid}|{o}", {"probe": pid, "observed": out, "source": src}))
